@@ -3,6 +3,7 @@ import Ogen.Props.C07
 import Ogen.Props.C16
 import Ogen.DocLines_proof
 import Ogen.Listing_proof
+import Ogen.Lines_proof
 /-!
 # C11 — the generator is total (partial: the modelled components only)
 
@@ -76,5 +77,23 @@ theorem listing_padding_fits (hi idx : Nat) (hhi : hi + 1 < 2 ^ 63) :
 /-- before fix 769cc43e a listing that ends at line 1000 asked for `buf[:-1]` (witness) -/
 theorem listing_padding_negative_before_fix : Listing.padNumOld 999 < Listing.log10 (999 + 1) :=
   Listing.padding_negative_before_fix
+
+/-- `location.Lines.Collect`: the loop over `bytes.IndexByte` collects exactly the offsets of the newlines, in order -/
+theorem lines_collect_spec (data : List Nat) : LinesM.collectLoop data 0 = LinesM.newlines data 0 :=
+  LinesM.collectLoop_eq data.length data 0 (Nat.le_refl _)
+
+theorem lines_collect_mem (data : List Nat) (j : Nat) :
+    j ∈ LinesM.newlines data 0 ↔ j < data.length ∧ data[j]? = some LinesM.NL := by
+  rw [LinesM.mem_newlines]; simp
+
+/-- `location.Lines.Line`: for every document and line number the range can be sliced (`start ≤ end ≤ len(data)`) … -/
+theorem lines_range_ok (data : List Nat) (n : Nat) (r : Nat × Nat)
+    (h : LinesM.line data.length (LinesM.newlines data 0) n = some r) : r.1 ≤ r.2 ∧ r.2 ≤ data.length :=
+  LinesM.line_range_ok data n r h
+
+/-- … and is one line: no newline lies strictly inside it -/
+theorem lines_range_is_one_line (data : List Nat) (n : Nat) (r : Nat × Nat)
+    (h : LinesM.line data.length (LinesM.newlines data 0) n = some r) (j : Nat) (hj : r.1 < j ∧ j < r.2) :
+    data[j]? ≠ some LinesM.NL := LinesM.line_has_no_inner_newline data n r h j hj
 
 end C11
